@@ -19,7 +19,9 @@ from . import common
 
 PROP = "C03"
 RULE = ("random histories (1-60 operations) of set/change/delete range "
-        "(bounds tied to data values, reversed, equal, infinite, NaN), "
+        "(bounds tied to data values, reversed, equal, infinite, NaN; both "
+        "keys or a single key, earlier values restored, applications that "
+        "raise because a range has one key only), "
         "add/remove/modify/invert polygon filters, remove-invalid and enable "
         "switches, limit events (0, negative, below/at/above the number of "
         "qualifying events), manual exclusions, reset_filter and "
@@ -40,12 +42,14 @@ TRUSTED_BASE = [
     "the inside mask is computed by dclab's points_in_poly on fresh arrays",
     "float comparisons are exact on the generated dyadic values; rounding is "
     "not modelled",
-    "not modelled: warnings, the ValueError for a range with only one of its "
-    "two keys set, KeyError for a polygon id without instance, change of the "
+    "not modelled: warnings, KeyError for a polygon id without instance, "
+    "ValueError for an unknown feature name in `force`, change of the "
     "feature set of a dataset, hierarchy parent",
 ]
 ASSUMPTIONS = [
-    "a range is set and deleted as a pair of keys ('<feat> min', '<feat> max')",
+    "the selection is specified after applications that do not raise; an "
+    "application raises ValueError exactly when a range has only one of its "
+    "two keys (theorem C03_apply_raises_iff)",
     "polygon ids in the settings refer to existing PolygonFilter instances "
     "whose axes are features of the dataset",
     "0 <= 'limit events' < 2**32 or negative (uint32 conversion not modelled)",
@@ -55,10 +59,12 @@ ASSUMPTIONS = [
 POOL = ["area_um", "aspect", "bright_avg", "deform", "tilt", "pos_x"]
 
 T_SETRANGE, T_DELRANGE, T_ADDPOLY, T_RMPOLY, T_MODPOLY, T_INVPOLY, \
-    T_INVALID, T_ENABLE, T_LIMIT, T_MANUAL, T_RESET, T_APPLY = range(12)
+    T_INVALID, T_ENABLE, T_LIMIT, T_MANUAL, T_RESET, T_APPLY, \
+    T_SETMIN, T_SETMAX, T_DELMIN, T_DELMAX = range(16)
 OPNAMES = ["SetRange", "DelRange", "AddPoly", "RmPoly", "ModPoly",
            "InvertPoly", "SetInvalid", "SetEnable", "SetLimit", "EditManual",
-           "Reset", "Apply"]
+           "Reset", "Apply", "SetMin", "SetMax", "DelMin", "DelMax"]
+RANGE_TAGS = (T_SETRANGE, T_DELRANGE, T_SETMIN, T_SETMAX, T_DELMIN, T_DELMAX)
 
 
 # --------------------------------------------------------------------------
@@ -158,10 +164,27 @@ def gen_case(rng, thorough=False, maxops=60):
     nops = rng.randint(1, maxops)
     have = set()
     polys_in = []
-    nqual = n
+    hist = {}            # feature -> ranges set so far
     for _ in range(nops):
         r = rng.random()
-        if r < 0.22:
+        if r < 0.04 and hist:
+            # back to a range this feature had before
+            f = rng.choice(sorted(hist))
+            lo, hi = rng.choice(hist[f])
+            ops.append([T_SETRANGE, [f], [lo, hi]])
+            have.add(f)
+        elif r < 0.08:
+            # one key only: changes one bound of a range or leaves a range
+            # with a single key (apply_filter then raises ValueError)
+            f = rng.choice(rfeats)
+            col = cols.get(f, [[0, 0], [0, 8]])
+            t = rng.choice([T_SETMIN, T_SETMAX, T_SETMIN, T_SETMAX,
+                            T_DELMIN, T_DELMAX])
+            if t in (T_SETMIN, T_SETMAX):
+                ops.append([t, [f], [gen_bound(rng, col)]])
+            else:
+                ops.append([t, [f], []])
+        elif r < 0.22:
             f = rng.choice(rfeats if rng.random() < 0.9 else absent)
             col = cols.get(f, [[0, 0], [0, 8]])
             lo, hi = gen_bound(rng, col), gen_bound(rng, col)
@@ -172,6 +195,7 @@ def gen_case(rng, thorough=False, maxops=60):
                     ((lo[1] > hi[1]) != (c < 0.3)):
                 lo, hi = hi, lo     # mostly ordered, sometimes reversed
             ops.append([T_SETRANGE, [f], [lo, hi]])
+            hist.setdefault(f, []).append([lo, hi])
             have.add(f)
         elif r < 0.34:
             f = rng.choice(sorted(have)) if have and rng.random() < 0.85 \
@@ -214,6 +238,19 @@ def gen_case(rng, thorough=False, maxops=60):
                 force = [rng.choice(rfeats)
                          for _ in range(rng.randint(1, 2))]
             ops.append([T_APPLY, force, []])
+    if rng.random() < 0.12 and len(rfeats) >= 2:
+        # an application that raises between two settings of the same range
+        g, f = rng.sample(rfeats, 2)
+        cg = cols.get(g, [[0, 0], [0, 8]])
+        ra = [gen_bound(rng, cg), gen_bound(rng, cg)]
+        rb = [gen_bound(rng, cg), gen_bound(rng, cg)]
+        fix = rng.choice([[T_DELMIN, [f], []],
+                          [T_SETMAX, [f], [gen_bound(rng, cg)]]])
+        seq = [[T_DELRANGE, [f], []], [T_SETRANGE, [g], ra], [T_APPLY, [], []],
+               [T_SETRANGE, [g], rb], [T_SETMIN, [f], [gen_bound(rng, cg)]],
+               [T_APPLY, [], []], [T_SETRANGE, [g], ra], fix]
+        k = rng.randint(0, len(ops))
+        ops[k:k] = seq
     ops.append([T_APPLY, [], []])
     return dict(n=n, data=data, absent=absent, versions=versions, reg=reg,
                 ops=ops)
@@ -332,6 +369,7 @@ def run_impl(case, want_trace=False):
     flat = []
     fail = None
     applies = 0
+    raised = 0
     proper = False
     changed_between = False
     dirty = False
@@ -345,6 +383,13 @@ def run_impl(case, want_trace=False):
         elif tag == T_DELRANGE:
             cfg.pop(a[0] + " min", None)
             cfg.pop(a[0] + " max", None)
+            dirty = True
+        elif tag in (T_SETMIN, T_SETMAX):
+            cfg[a[0] + (" min" if tag == T_SETMIN else " max")] = \
+                fv2float(fv[0])
+            dirty = True
+        elif tag in (T_DELMIN, T_DELMAX):
+            cfg.pop(a[0] + (" min" if tag == T_DELMIN else " max"), None)
             dirty = True
         elif tag == T_ADDPOLY:
             ds.polygon_filter_add(pfs[a[0]])
@@ -385,8 +430,19 @@ def run_impl(case, want_trace=False):
                                   set()).add(pf.hash)
             try:
                 ds.apply_filter(force=list(a) if a else None)
-            except Exception as e:
+            except ValueError as e:
+                # documented: a range with only one of its keys
                 flat += [9]
+                raised += 1
+                half = [k for k in cfg.keys()
+                        if (k.endswith(" min") and k[:-4] + " max" not in cfg)
+                        or (k.endswith(" max") and k[:-4] + " min" not in cfg)]
+                if not half and fail is None:
+                    fail = ("op %d: apply_filter raised %r although every "
+                            "range has both keys" % (i, e))
+                continue
+            except Exception as e:
+                flat += [8]
                 if fail is None:
                     fail = "op %d: apply_filter raised %r" % (i, e)
                 break
@@ -465,7 +521,7 @@ def run_impl(case, want_trace=False):
     res = dict(flat=flat, fail=fail,
                nontrivial=bool(proper and changed_between),
                feats=feats, names=names, rows=rows, choice=choice,
-               hashes=hashes, applies=applies)
+               hashes=hashes, applies=applies, raised=raised)
     if want_trace:
         res["trace"] = trace
     PolygonFilter.clear_all_filters()
@@ -501,7 +557,7 @@ def render(case, res, see_removed=1):
                 "Z * Z * list Z")
     ops = []
     for tag, a, fv in case["ops"]:
-        if tag in (T_SETRANGE, T_DELRANGE):
+        if tag in RANGE_TAGS:
             ints = [nid.get(a[0], len(names))]
         elif tag == T_APPLY:
             ints = [nid.get(f, len(names)) for f in a]
@@ -581,6 +637,7 @@ def run(run):
         run.count("events=%d" % c["n"])
         run.count("features=%d" % len(res["feats"]))
         run.count("applies", res["applies"])
+        run.count("applies-that-raised", res["raised"])
         for o in c["ops"]:
             run.count("op:" + OPNAMES[o[0]])
         for key, hs in res["hashes"].items():
